@@ -350,6 +350,7 @@ def oracle(case, trace):
     outstanding = {}        # ('s', id) / ('b', (ids..)) -> ticket
     exp = []                # expected state of every future
     nfut = 0
+    ever = set()            # every id drawn on this connection so far
     for step, (op, rec) in enumerate(zip(case['ops'], trace)):
         k = op[0]
         where = f'op {step} {json.dumps(op)}'
@@ -362,7 +363,15 @@ def oracle(case, trace):
                         return 'c01:id-not-fresh', f'{where}: id {i!r} is not an int'
                     if i in live:
                         return 'c01:id-not-fresh', f'{where}: id {i} is already outstanding'
+                    # a duplicated (late) response to a finished request must be rejected, never
+                    # complete a different request: that is only possible if an id is not drawn
+                    # again once its request has completed
+                    if i in ever:
+                        return ('c01:id-reused-after-completion',
+                                f'{where}: id {i} was already used by an earlier, completed request '
+                                f'- a duplicate of that response would now complete this one')
                     live.add(i)
+                    ever.add(i)
                 nreq = 1 if k == 'S' else op[1].count('r')
                 if len(ids) != nreq:
                     return 'c01:id-not-fresh', f'{where}: {len(ids)} ids for {nreq} requests'
